@@ -121,6 +121,8 @@ def run(chk):
     # ceremonies that fail after their counter update was accepted, or at a store call that fails
     for lock in ("mutex", "rwlock"):
         pairs(chk, "ConcMC_fail_%s.cfg" % lock, "failpairs-" + lock, ("C19.", "Any.Crash"))
+        # counters next to the 32-bit maximum
+        pairs(chk, "ConcMC_high_%s.cfg" % lock, "highpairs-" + lock, ("C19.", "Any.Crash"))
     # three concurrent ceremonies: sampled schedules
     n = 20000 if thorough else 1500
     for lock in ("mutex", "rwlock"):
